@@ -962,18 +962,14 @@ fn compile_string_case(
         })
         .collect();
 
-    let default = if default_rows.is_empty() {
-        None
-    } else {
-        Some(Box::new(compile_rows(
-            genv,
-            gensym,
-            diagnostics,
-            default_rows,
-            ty,
-            match_range,
-        )))
-    };
+    let default = Some(Box::new(compile_rows(
+        genv,
+        gensym,
+        diagnostics,
+        default_rows,
+        ty,
+        match_range,
+    )));
 
     core::Expr::EMatch {
         expr: Box::new(bvar.to_core()),
